@@ -14,6 +14,7 @@ import (
 	"os/exec"
 	"reflect"
 	"strings"
+	"time"
 
 	"github.com/goreleaser/nfpm/v2"
 	"github.com/goreleaser/nfpm/v2/files"
@@ -375,6 +376,11 @@ func histConfig(g *pkgGen, i int) *genOut {
 		c.Contents = append(c.Contents, &files.Content{Source: "src/k", Destination: fmt.Sprintf("/opt/hist%d/tree", i), Type: "tree"})
 		c.Umask = 0o022
 		c.Overrides[allFormats[g.rng.Intn(len(allFormats))]] = &nfpm.Overridables{Umask: 0o077}
+	}
+	// an entry that needs no defaults at all: type, owner, group, mode and mtime are all configured
+	if i%3 != 1 {
+		c.Contents = append(c.Contents, &files.Content{Destination: fmt.Sprintf("/var/lib/hist%d/complete", i), Type: "dir",
+			FileInfo: &files.ContentFileInfo{Owner: "svc", Group: "svc", Mode: 0o750, MTime: time.Unix(1500000000, 0).UTC()}})
 	}
 	for _, f := range allFormats {
 		if _, has := c.Overrides[f]; !has && g.rng.Intn(2) == 0 {
